@@ -192,8 +192,10 @@ def report_correspondence(out, pid, batch, max_report=1):
 
 def stats(batch):
     st = {"histories": len(batch), "builds": 0, "executions": 0, "hits": 0, "failed_builds": 0, "edits": 0, "streams": {},
-          # the decidable structural guard of KEYFAITH.v (cmd_faithful + unique printed labels), evaluated by the extracted model on
-          # the snapshots of every history: the guard under which C01's theorems hold with no abstract premise
+          # the decidable structural guard of KEYFAITH.v (cmd_faithful incl. the no-cache tag + unique printed labels + comma-free
+          # output paths of no-cache targets), evaluated by the extracted model on the snapshots of every history: the guard under
+          # which C01's theorems hold with no abstract premise.  No-cache targets are admitted by the theorems (op_ok / plain only ask
+          # for a command), so the histories of the 'full' stream with no-cache targets count here too
           "histories_meeting_keyfaith_guard": sum(1 for _, _, _, m in batch if getattr(m, "guards", None) and m.guards.get("k"))}
     nontriv = set()
     for name, h, notes, m in batch:
